@@ -48,7 +48,7 @@ def Faithful (t0 : Nat) (done : List Step) (c : Call) : Prop :=
     s.l = c.login ∧ s.pw = c.pw ∧ s.backend c.login c.pw = c.result
 
 structure RunInv (cfg : Cfg) (t0 : Nat) (r : Run) (done : List Step) : Prop where
-  inv : Inv r.st r.log
+  inv : Inv cfg r.st r.log
   now : r.now = timeAfter t0 done
   log : ∀ c ∈ r.log, c.time ≤ r.now ∧ Faithful t0 done c
   outs : ∀ o ∈ r.outs, o.time ≤ r.now ∧ Justified cfg o r.log
@@ -69,7 +69,7 @@ theorem timeAfter_snoc (t0 : Nat) (done : List Step) (s : Step) :
   simp [timeAfter, Nat.add_assoc]
 
 theorem runInv_init (cfg : Cfg) (t0 : Nat) : RunInv cfg t0 ⟨State.init, t0, [], []⟩ [] :=
-  ⟨inv_init, by simp [timeAfter], by simp, by simp⟩
+  ⟨inv_init cfg, by simp [timeAfter], by simp, by simp⟩
 
 theorem runInv_step (cfg : Cfg) (t0 : Nat) (r : Run) (done : List Step) (s : Step)
     (h : RunInv cfg t0 r done) : RunInv cfg t0 (stepRun cfg r s) (done ++ [s]) := by
